@@ -8,6 +8,8 @@
 #include <sqlite3.h>
 
 #include <cstdint>
+#include <functional>
+#include <utility>
 #include <string>
 #include <vector>
 
@@ -23,6 +25,12 @@ struct stmt_rec
     std::string sql;  // statement text (unexpanded)
     long chg = 0;     // rows changed while this statement was stepped (sqlite3_total_changes delta, triggers included)
     const char* cls = "read";  // "begin" | "commit" | "rollback" | "read" | "write" (transaction-discipline spec)
+    int seq = 0;      // order of the first step among the statements of the call (0 = never stepped)
+    bool after_hook = false;   // first stepped after the hook of this call fired
+    // which databases of the connection the statement needs a read / write transaction on (OP_Transaction of its
+    // EXPLAIN listing: database index, write flag); only filled in while explain mode is on
+    std::vector<std::pair<int, int>> needs;
+    bool explained = false;
 };
 
 struct zrec
@@ -45,6 +53,9 @@ constexpr int CRASH_EXIT = 42;
 void set_crash(int k);                 // _exit(CRASH_EXIT) right before the k-th prepared statement is first stepped (0 = off);
                                        // only meaningful in a forked child that owns its own connection
 void set_logging(bool on);             // keep the sql text log (off = only counters)
+void set_hook(int k, std::function<void()> fn);   // call fn right before the k-th prepared statement is first stepped (0 = off)
+bool hook_fired();
+void set_explain(bool on);             // record for every prepared statement which databases it locks (EXPLAIN)
 
 // zlib hand-offs -----------------------------------------------------------------------
 void z_begin();
